@@ -71,6 +71,8 @@ LAYER_VOCAB = [
 DIAGRAM_VOCAB = [
     Sym("from_file", "good"),
     Sym("from_file", "notags"),
+    Sym("from_file", "endfirst"),
+    Sym("from_file", "startlast"),
     Sym("with_base_module", "p"),
     Sym("base_module_included_in_module_names"),
 ]
@@ -114,7 +116,7 @@ class Family:
             return self.ev
         if a == "ARCH":
             return _mk_arch()
-        if self.name == "diagram" and a in ("good", "notags"):
+        if self.name == "diagram" and a in ("good", "notags", "endfirst", "startlast"):
             return os.path.join(self.scratch, f"{a}.puml")
         return a
 
@@ -137,6 +139,11 @@ def _write_diagrams(d):
         f.write(GOOD_PUML)
     with open(os.path.join(d, "notags.puml"), "w") as f:
         f.write(NOTAGS_PUML)
+    # both tag texts occur, but no start tag is followed by an end tag: the diagram is never closed / never opened
+    with open(os.path.join(d, "endfirst.puml"), "w") as f:
+        f.write("' do not forget the closing @enduml tag\n@startuml\n[a] --> [b]\n")
+    with open(os.path.join(d, "startlast.puml"), "w") as f:
+        f.write("[a] --> [b]\n@enduml\n' a diagram begins with @startuml\n")
 
 
 # ---------------------------------------------------------------------------------------------------
